@@ -590,6 +590,9 @@ pub fn run(op: &str, a: &Args) -> Option<Outcome> {
         ["ctx", "script"] => Some(crate::ops_more::ctx_script(arg(a, "script"))),
         ["dom", "order_keys"] => Some(crate::ops_more::dom_order_keys(arg(a, "doc"))),
         ["dom", "tree_atomic"] => Some(crate::ops_more::dom_tree_atomic(arg(a, "scenario"))),
+        ["dom", "attr_seq"] | ["dom", "attr_seq1"] => Some(crate::ops_seq::dom_attr_seq(arg(a, "ops"))),
+        ["dom", "seq_tree"] | ["dom", "seq1_tree"] => Some(crate::ops_seq::dom_seq(arg(a, "ops"), "tree")),
+        ["dom", "seq_atomic"] | ["dom", "seq1_atomic"] => Some(crate::ops_seq::dom_seq(arg(a, "ops"), "atomic")),
         ["dom", "attr_owner"] => Some(crate::ops_more::dom_attr_owner(arg(a, "scenario"))),
         ["dom", "factory"] => Some(crate::ops_more::dom_factory(arg(a, "kind"), arg(a, "data"))),
         ["dom", "views_after_edits"] => Some(crate::ops_more::dom_after_edits(arg(a, "scenario"), "views")),
@@ -750,6 +753,42 @@ pub fn grid(op: &str, limit: usize) -> (usize, Vec<(Args, Outcome)>) {
         ["dom", "views_after_edits"] | ["dom", "keys_after_edits"] | ["dom", "preorder_after_edits"] | ["dom", "children_after_edits"] => {
             for sc in crate::ops_more::EDIT_SCENARIOS {
                 try_one(mk(&[("scenario", sc)]), &mut n, &mut bad);
+            }
+        }
+        ["dom", "attr_seq1"] => {
+            for o in crate::ops_seq::attr_single_ops() {
+                try_one(mk(&[("ops", o.as_str())]), &mut n, &mut bad);
+            }
+        }
+        ["dom", "attr_seq"] => {
+            let singles = crate::ops_seq::attr_single_ops();
+            for o in &singles {
+                try_one(mk(&[("ops", o.as_str())]), &mut n, &mut bad);
+            }
+            for first in &singles {
+                for o in &singles {
+                    let two = format!("{};{}", first, o);
+                    try_one(mk(&[("ops", two.as_str())]), &mut n, &mut bad);
+                }
+            }
+        }
+        ["dom", "seq1_tree"] | ["dom", "seq1_atomic"] => {
+            // the single operations only (quick tier)
+            for o in crate::ops_seq::single_ops().iter().chain(crate::ops_seq::special_ops().iter()) {
+                try_one(mk(&[("ops", o.as_str())]), &mut n, &mut bad);
+            }
+        }
+        ["dom", "seq_tree"] | ["dom", "seq_atomic"] => {
+            // every single operation, then every performed first step (one per distinct resulting tree) followed by every operation
+            let singles = crate::ops_seq::single_ops();
+            for o in singles.iter().chain(crate::ops_seq::special_ops().iter()) {
+                try_one(mk(&[("ops", o.as_str())]), &mut n, &mut bad);
+            }
+            for first in crate::ops_seq::state_changers() {
+                for o in &singles {
+                    let two = format!("{};{}", first, o);
+                    try_one(mk(&[("ops", two.as_str())]), &mut n, &mut bad);
+                }
             }
         }
         ["dom", "tree_atomic"] => {
